@@ -30,7 +30,7 @@ K = dict(GcRequest=1, GcClearRequest=2, MonMakeRequest=3, MonRequested=4, MonPar
          VmStopBegin=64, VmStopEnd=65, VmScanMutator=66, VmScanVmRoots=67, VmResume=68, VmBlockEnter=69,
          VmBlockLeave=70, VmProcessWeak=72, VmForwardWeak=73)
 KEEP = set(range(1, 45)) | {64, 65, 66, 67, 68, 69, 70, 72, 73}
-BATCH_MOVE, SOLID, UNSOLID = 200, 202, 203
+BATCH_MOVE, SOLID, UNSOLID, OPEN_SOLID = 200, 202, 203, 204
 # failures every scheduler check reports: the log is not a run of the model / the run did not finish
 COMMON_KEYS = ("sched:hang", "sched:panic", "sched:crash", "sched:not-enabled", "sched:shape", "sched:monitor-crash",
                "sched:parse", "sched:unknown-packet", "sched:batch")
@@ -94,7 +94,8 @@ def body_storm(rng, plan, n_wide, fields, depth, gcs, mutators=1, eph=0, fork=Fa
     # wide objects: every field points to a fresh leaf or to a shared node
     shared = alloc(0, 1, 8, 59)
     for k in range(n_wide):
-        w = alloc(0, fields, 0, 50 + (k % 8))
+        # objects above the plan's max_non_los_default_alloc_bytes must use the LOS (8 KB is below every plan's limit)
+        w = alloc(0, fields, 0, 50 + (k % 8), "Los" if fields * 8 > 8000 else "Default")
         for j in range(fields):
             if rng.random() < 0.3:
                 p(f"write 0 {w} {j} {shared}")
@@ -371,6 +372,10 @@ def annotate(evs, n):
         seq, tid, _, _, _ = evs[bi]
         for pid, tag in lst:
             after[bi].append((seq, tid, BATCH_MOVE, pid, tag))
+    # `WorkBucket::open` is logged before the store: until the opener's next event the bucket may still look closed
+    for i, (seq, tid, k, a, b) in enumerate(evs):
+        if (k == K["BucketOpen"] or (k == K["BucketSetEnabled"] and b == 1)) and next_of[i] is not None:
+            before[next_of[i]].append((evs[next_of[i]][0], tid, OPEN_SOLID, a, 0))
     for ci, lst in early.items():
         seq = evs[ci][0]
         for owner, (pid, tag) in lst:
